@@ -176,7 +176,10 @@ pub fn gen(c: &Chain, cfg: &Cfg, m: &Menu, rng: &mut Rng, kind: &str) -> Option<
             exec(if rng.chance(7, 8) { "owner" } else { *rng.pick(&SENDERS) }, "hub", p, json!([]))
         }
         "keeper_rate" => exec("owner", "dispatcher", json!({"k": "update_config", "hub_contract": "", "bsei_reward_contract": "", "stsei_reward_denom": "",
-            "bsei_reward_denom": "", "krp_keeper_address": "", "krp_keeper_rate": *rng.pick(&DECS)}), json!([])),
+            "bsei_reward_denom": "", "krp_keeper_address": *rng.pick(&["", "", "keeper"]), "krp_keeper_rate": *rng.pick(&DECS)}), json!([])),
+        // the dispatcher re-pointed to another hub (a contract that accepts everything) and back
+        "disp_hub" => exec("owner", "dispatcher", json!({"k": "update_config", "hub_contract": *rng.pick(&["sink", "sink", "hub"]), "bsei_reward_contract": "", "stsei_reward_denom": "",
+            "bsei_reward_denom": "", "krp_keeper_address": "", "krp_keeper_rate": []}), json!([])),
         "add_validator" => exec(if rng.chance(7, 8) { "owner" } else { *rng.pick(&SENDERS) }, "registry", json!({"k": "add_validator", "validator": 1 + rng.below(cfg.nv)}), json!([])),
         "remove_validator" => exec(if rng.chance(7, 8) { "owner" } else { *rng.pick(&SENDERS) }, "registry", json!({"k": "remove_validator", "address": 1 + rng.below(cfg.nv)}), json!([])),
         "redelegations" => exec(&u, "registry", json!({"k": "redelegations", "address": 1 + rng.below(cfg.nv)}), json!([])),
